@@ -49,6 +49,10 @@ func c40GenPayload(g *Gen, ty int) string {
 	default:
 		w = []int{60, 5, 10, 10, 10, 5}
 	}
+	if (ty == 2 || ty == 3 || ty == 4 || ty == 6) && g.R.Chance(3) {
+		g.Count("payload:json-null")
+		return "null"
+	}
 	switch g.R.Pick(w...) {
 	case 0:
 		g.Count("payload:empty")
@@ -220,6 +224,11 @@ func genC40(g *Gen) {
 					o := msgs[g.R.Intn(nm)]
 					nextID++
 					g.Op("nd", "%s", plain(o, fmt.Sprintf("e%d", nextID), "a", 1, "d"+Hex([]byte(c40Word(g, 1)))))
+					if o != m && g.R.Bool() {
+						// ... and completes, leaving room for the first stream to go on
+						nextID++
+						g.Op("nd", "%s", plain(o, fmt.Sprintf("e%d", nextID), "", 6, "-"))
+					}
 				}
 				g.Op("nd", "%s", plain(m, ib, kb, 1, "d"+Hex([]byte(c40Word(g, 2))))) // retry of the older id
 				nextID++
